@@ -196,12 +196,13 @@ def export_irmap(ctx):
         m = Module(module_text(ops))
         irm = wasm_to_ir(m, TypeInfo(4, 4))      # as python_instantiate does
         fns = {f.name: f for f in irm.functions}
-        rows = []
+        rows, defs = [], []
         table = {}
         for op, cterm, _tys, _res in ops:
             prog, res = extract_prog(fns[fname(op)])
             table[op] = (prog, res)
-            rows.append('  (%s, ([%s], %d%%nat))' % (cterm, '; '.join(prog), res))
+            defs.append('Definition p_%s : irprog := ([%s], %d%%nat).' % (fname(op)[2:], '; '.join(prog), res))
+            rows.append('  (%s, p_%s)' % (cterm, fname(op)[2:]))
     except ExportError as ex:
         ctx.log('cannot export the opcode -> IR table:', ex)
         ctx.failed_stages.append(('export', 'wasm2ppci IR for %s: %s' % (op, ex)))
@@ -213,6 +214,7 @@ def export_irmap(ctx):
     text = ('(* GENERATED by tools/props/c22.py: IR emitted by ppci/wasm/wasm2ppci.py for one-instruction functions '
             '— do not edit; regenerated on every check run *)\n'
             'From PV Require Import Lib.Py Spec.WasmNumSpec Model.WasmIr.\nOpen Scope Z_scope.\n\n'
+            + '\n'.join(defs) + '\n\n'
             'Definition table : list (wop * irprog) := [\n' + ';\n'.join(rows) + '\n].\n')
     ctx.write_gen('wasm_irmap', text)
     ctx.cov['stages']['gen_wasm_irmap'] = {'opcodes': len(rows)}
@@ -262,3 +264,252 @@ def regen(ctx):
     irpy_infos, _ = ctx.gen_T('irpy_rt', tmp, IRPY_ENTRIES)
     table = export_irmap(ctx)
     return rt_infos, irpy_infos, table
+
+
+# ---------------------------------------------------------------- terms
+def zt(v):
+    return to_term(int(v))
+
+
+def wrapt(t):
+    return t if not t.startswith('-') else '(%s)' % t
+
+
+def zlist(args):
+    return '[%s]' % '; '.join(zt(a) for a in args)
+
+
+def replay_cmd(op, args, tys, res, target='python'):
+    params = ' '.join('(param %s)' % t for t in tys)
+    gets = ' '.join('(local.get %d)' % i for i in range(len(tys)))
+    src = '(module (func $f (export "f") %s (result %s) %s (%s)))' % (params, res, gets, op)
+    return ('PYTHONPATH=%s /venv/bin/python -c "from ppci.wasm import Module, instantiate; '
+            'print(instantiate(Module(\'%s\'), {}, target=\'%s\').exports.f(%s))"'
+            % (REPO, src, target, ', '.join(repr(a) for a in args)))
+
+
+# ---------------------------------------------------------------- search: implementation vs independent oracle
+def search_integer(ctx, deep, target='python', inst=None):
+    """every integer opcode x boundary operand tuples through the real target vs the Python oracle"""
+    from props import c22_exec as X
+    ops = all_ops()
+    if inst is None:
+        try:
+            inst = X.instantiate_ops(module_text(ops), target)
+        except Exception as ex:   # noqa: BLE001
+            ctx.log('instantiate(target=%r) failed: %r' % (target, ex))
+            ctx.violation({'fn': 'instantiate', 'args': [target], 'what': 'instantiation of the one-instruction '
+                           'module failed: %r' % (ex,)})
+            return 0
+    n = 0
+    per_op = None if deep else 160
+    for op, _c, tys, res in ops:
+        reported = 0
+        for args in X.operand_tuples(op, tys, ctx.rng, per_op):
+            exp = X.oracle(op, list(args))
+            if target != 'python' and exp == 'trap':
+                continue          # a native trap is a hardware exception that would kill this process
+            got = X.run_export(inst, fname(op), args)
+            n += 1
+            ok = (got[0] == 'trap') if exp == 'trap' else (got[0] == 'ok' and got[1] == exp)
+            if not ok and reported < 3:
+                reported += 1
+                ctx.violation({'fn': op, 'args': list(args), 'target': target, 'expected': exp,
+                               'actual': got[1] if got[0] == 'ok' else '%s (%s)' % got,
+                               'how_to_replay': replay_cmd(op, args, tys, res, target)})
+    ctx.cov['stages']['search_%s' % target] = n
+    ctx.cov['evaluations'] += n
+    return n
+
+
+def float_tests(ctx):
+    """fixed boundary pool, TESTS only (no proof): trunc / trunc_sat / nearest / trunc / ceil / floor / min / max"""
+    from props import c22_exec as X
+    try:
+        inst = X.instantiate_ops(X.float_module_text(), 'python')
+    except Exception as ex:   # noqa: BLE001
+        ctx.violation({'fn': 'instantiate', 'args': ['float module'], 'what': repr(ex)})
+        return
+    n = bad = 0
+    for op, bits in X.float_cases():
+        xs = [X.f64_of(b) for b in bits]
+        exp = X.float_oracle(op, xs)
+        got = X.run_export(inst, op.replace('.', '_'), xs)
+        n += 1
+        if not X.float_check(got, exp):
+            bad += 1
+            act = got[1] if got[0] != 'ok' else (hex(X.bits_of(got[1])) if isinstance(got[1], float) else got[1])
+            ctx.violation({'fn': op, 'args': ['0x%016x' % b for b in bits], 'kind': 'float-test',
+                           'expected': 'trap' if exp[0] == 'trap' else ('NaN' if exp[0] == 'nan' else
+                                                                        (hex(exp[1]) if op[0] == 'f' else exp[1])),
+                           'actual': act if got[0] == 'ok' else '%s: %s' % (got[0], act)})
+    ctx.cov['stages']['float_tests'] = {'cases': n, 'failing': bad, 'note': 'tests on a fixed pool, not proofs'}
+    ctx.cov['evaluations'] += n
+
+
+def search(ctx):
+    from vlib import ensure_repo_on_path
+    ensure_repo_on_path()
+    search_integer(ctx, True, 'python')
+    float_tests(ctx)
+
+
+# ---------------------------------------------------------------- correspondence
+def helper_cases(ctx, rt_infos):
+    """Gen.wasm_runtime vs ppci.wasm.execution.runtime"""
+    from props import c22_exec as X
+    import ppci.wasm.execution.runtime as rtm
+    cases, recs = [], []
+    for ent in RT_ENTRIES:
+        name = ent['name']
+        fn = getattr(rtm, name)
+        n = 32 if name.startswith('i32') else 64
+        pool = X.value_pool(n, ctx.rng, 2)
+        fuel = 'FUEL ' if getattr(rt_infos[name], 'uses_fuel', False) else ''
+        if 'rot' in name:
+            tuples = [(a, b) for a in pool[:14] + pool[-2:] for b in (0, 1, n - 1, n, n + 1, -1, -n, 2 * n + 1, pool[-1])]
+        else:
+            tuples = [(a,) for a in pool]
+        for args in tuples:
+            out = call_impl(fn, list(args), diag=())
+            cases.append(('wasm_runtime.%s %s%s' % (name, fuel, ' '.join(wrapt(zt(a)) if zt(a)[0] != '(' else zt(a)
+                                                                        for a in args)), out))
+            recs.append((name, args, out))
+    return cases, recs
+
+
+def irpy_cases(ctx):
+    """Gen.irpy_rt vs the IrPy class that the python target really uses"""
+    from ppci.wasm.execution._python_instance import get_irpy_rt
+    cls = get_irpy_rt().IrPy
+    vals = [0, 1, -1, 2, -2, 7, -7, 31, 32, 33, 63, 64, 65, -32, -64, 2 ** 31 - 1, -2 ** 31, 2 ** 31, 2 ** 32 - 1, 2 ** 32,
+            2 ** 63 - 1, -2 ** 63, 2 ** 64 - 1, ctx.rng.randrange(-2 ** 63, 2 ** 63)]
+    cases, recs = [], []
+    for v in vals:
+        for bits in (32, 64):
+            for sg in (True, False):
+                out = call_impl(cls.correct, [v, bits, sg], diag=())
+                cases.append(('irpy_rt.correct %s %d %s' % (zt(v), bits, 'true' if sg else 'false'), out))
+                recs.append(('correct', (v, bits, sg), out))
+    small = [0, 1, -1, 2, -2, 7, -7, 2 ** 31 - 1, -2 ** 31, 2 ** 32 - 1, -2 ** 63, 2 ** 63 - 1, vals[-1]]
+    for a in small:
+        for b in small:
+            for nm in ('idiv', 'irem'):
+                out = call_impl(getattr(cls, nm), [a, b], diag=())
+                cases.append(('irpy_rt.%s %s %s' % (nm, zt(a), zt(b)), out))
+                recs.append((nm, (a, b), out))
+    for a in small:
+        for c in (0, 1, 31, 32, 33, 63, 64, 65, -1, -33, 2 ** 32 - 1):
+            for bits in (32, 64):
+                for nm in ('ishl', 'ishr'):
+                    out = call_impl(getattr(cls, nm), [a, c, bits], diag=())
+                    cases.append(('irpy_rt.%s %s %s %d' % (nm, zt(a), zt(c), bits), out))
+                    recs.append((nm, (a, c, bits), out))
+    return cases, recs
+
+
+def end_to_end_cases(ctx, inst, per_op):
+    """(1) Model.py_run over the exported IR  vs  the real python target;
+       (2) Spec.wop_sem_signed                 vs  the independent Python oracle used by the search"""
+    from props import c22_exec as X
+    model_cases, spec_cases, recs = [], [], []
+    for op, cterm, tys, _res in all_ops():
+        for args in X.operand_tuples(op, tys, ctx.rng, per_op)[:per_op if len(tys) == 2 else None]:
+            got = X.run_export(inst, fname(op), args)
+            out = OkV(got[1]) if got[0] == 'ok' else Internal     # WasmTrapException <- ZeroDivisionError
+            model_cases.append(('py_run FUEL p_%s %s' % (fname(op)[2:], zlist(args)), out))
+            exp = X.oracle(op, list(args))
+            spec_cases.append(('wop_sem_signed (%s) %s' % (cterm, zlist(args)), None if exp == 'trap' else exp))
+            recs.append((op, args, got))
+    return model_cases, spec_cases, recs
+
+
+KNOWN_OVERFLOW = [('i32.div_s', [-2 ** 31, -1], ['i32', 'i32'], 'i32'), ('i64.div_s', [-2 ** 63, -1], ['i64', 'i64'], 'i64')]
+
+
+def run(ctx):
+    from props import c22_exec as X
+    rt_infos, _irpy_infos, table = regen(ctx)
+    ok, _ = ctx.build(['Proofs/C22_table.vo'])
+    if ok:
+        ctx.check_props('Props/C22.v')
+    inst = None
+    try:
+        inst = X.instantiate_ops(module_text(all_ops()), 'python')
+    except Exception as ex:   # noqa: BLE001
+        ctx.log('instantiate failed: %r' % (ex,))
+        ctx.failed_stages.append(('instantiate', repr(ex)))
+    # ---- correspondence
+    if ctx.build(['Gen/wasm_runtime.vo', 'Gen/irpy_rt.vo', 'Gen/wasm_irmap.vo', 'Model/WasmIr.vo', 'Lib/Val.vo'])[0]:
+        cases, recs = helper_cases(ctx, rt_infos)
+        bad = ctx.run_cases('rt_helpers', ['Gen.wasm_runtime'], cases)
+        if bad:
+            ctx.failed_stages.append(('correspondence', 'Gen.wasm_runtime disagrees with runtime.py on %d cases, first: %s%r'
+                                      % (len(bad), recs[bad[0]][0], recs[bad[0]][1])))
+        cases2, recs2 = irpy_cases(ctx)
+        bad = ctx.run_cases('irpy_rt', ['Gen.irpy_rt'], cases2)
+        if bad:
+            ctx.failed_stages.append(('correspondence', 'Gen.irpy_rt disagrees with the IrPy runtime on %d cases, first: %s%r'
+                                      % (len(bad), recs2[bad[0]][0], recs2[bad[0]][1])))
+        ctx.cov['stages']['correspondence_T'] = {'runtime_helpers': len(cases), 'irpy_runtime': len(cases2)}
+        if inst is not None:
+            per_op = 40 if ctx.quick() else 120
+            mc, sc, recs3 = end_to_end_cases(ctx, inst, per_op)
+            bad = ctx.run_cases('py_run', ['Spec.WasmNumSpec', 'Model.WasmIr', 'Gen.wasm_irmap'], mc)
+            if bad:
+                ctx.failed_stages.append(('correspondence', 'Model.py_run over the exported IR disagrees with the python '
+                                          'target on %d cases, first: %s%r' % (len(bad), recs3[bad[0]][0], recs3[bad[0]][1])))
+            bad = ctx.run_cases('spec_oracle', ['Spec.WasmNumSpec'], sc)
+            if bad:
+                ctx.failed_stages.append(('oracle', 'the Python search oracle disagrees with Spec/WasmNumSpec.v on %d '
+                                          'cases, first: %s%r' % (len(bad), recs3[bad[0]][0], recs3[bad[0]][1])))
+            seen = set()
+            for op, args, got in recs3:
+                if any(args) and got[0] in ('ok', 'trap'):
+                    seen.add((op, tuple(args)))
+            ctx.cov['distinct_nontrivial'] += len(seen)
+            dist = {'ok': 0, 'trap': 0, 'exc': 0}
+            for _op, _a, got in recs3:
+                dist[got[0]] += 1
+            ctx.cov['stages']['end_to_end_distribution'] = dist
+            for r in recs3[:: max(1, len(recs3) // 8)]:
+                ctx.note_sample({'op': r[0], 'args': repr(r[1]), 'impl': repr(r[2])})
+    # ---- search (always; deep when something failed or thorough): implementation vs independent oracle
+    deep = (not ctx.quick()) or bool(ctx.failed_stages)
+    if inst is not None:
+        search_integer(ctx, deep, 'python', inst)
+    # known finding re-executed on every run: iN.div_s MIN -1 must trap
+    if inst is not None:
+        for op, args, tys, res in KNOWN_OVERFLOW:
+            got = X.run_export(inst, fname(op), args)
+            if got[0] != 'trap':
+                ctx.violation({'fn': op, 'args': list(args), 'target': 'python', 'expected': 'trap',
+                               'actual': got[1] if got[0] == 'ok' else '%s (%s)' % got,
+                               'how_to_replay': replay_cmd(op, args, tys, res)})
+    float_tests(ctx)
+    if not ctx.quick():
+        try:
+            search_integer(ctx, False, 'native')
+        except Exception as ex:   # noqa: BLE001
+            ctx.log('native target search skipped: %r' % (ex,))
+    ctx.cov['exhaustive'] = False
+
+
+MANIFEST = {
+    'text': 'PARTIAL (integer numeric core proved, the rest tested). Coq theorems, unbounded over all operands: the 15 integer '
+            'helpers of wasm/execution/runtime.py (rotl/rotr/clz/ctz/popcnt/extendN_s for i32 and i64) equal the WebAssembly '
+            'integer operators; the IR that wasm2ppci emits for each of the 66 integer numeric opcodes (table exported from the '
+            'real compiler on every run and proved equal to the expected shapes) evaluates, under the python-target semantics '
+            '(ir2py text + translated IrPy runtime), to the specification value whenever the specification does not trap, and '
+            'raises ZeroDivisionError (= WasmTrapException) for divisor 0. Refuted and recorded as known finding: iN.div_s MIN/-1 '
+            'returns MIN instead of trapping. Control flow, calls, memory, tables, globals, floats and the native target are NOT '
+            'proved: integer opcodes are executed end to end through instantiate(target=python) (native in the thorough tier) '
+            'against an independent oracle, and float trunc/nearest/min/max/ceil/floor run on a fixed boundary pool as TESTS; '
+            'their failures (NaN -> ValueError, out-of-range trunc not trapping, lost -0.0/NaN) are known findings.',
+    'note': 'trusted: Coq kernel; tools/py2coq.py; the IR table exporter and the hand model Model/WasmIr.v of what ir2py emits for '
+            'Binop/Cast/CJump/Const/FunctionCall (both cross-checked per run by executing the real python target on ~2600 '
+            'boundary cases); reading of the WebAssembly spec in Spec/WasmNumSpec.v (cross-checked against an independent '
+            'Python oracle). Shift counts >= N rely on IrPy.ishl/ishr masking (proved for the python target); the '
+            'target-independent IR gives no meaning to such shifts and wasm2ppci does not mask. No axioms.',
+    'technique': 'Coq proof over py2coq-regenerated helpers + exported opcode->IR table; differential tests for the rest',
+}
